@@ -1,1 +1,102 @@
-/- C05 property theorems (stub: not built yet) -/
+import ThriftVerif.Lib.ResolveLemmas
+/-
+  C05 — symbol resolution binds every reference to the definition the IDL names.
+  Property theorems only; model: Lib/Resolve.lean, specification: Lib/ResolveSpec.lean,
+  helper lemmas: Lib/ResolveLemmas/*.lean.  All statements quantify over all programs.
+-/
+namespace Props.C05
+open Sem
+
+/-- A two-file program used to show that hypotheses are satisfiable:
+file 0 `enum E {A}  typedef E T`, file 1 `include "b.thrift"  typedef b.T U  const U c = b.T.A`. -/
+def sample : Program :=
+  [ { filename := [98], includes := [], typedefs := [⟨[84], .name [69]⟩], constants := [],
+      enums := [⟨[69], [⟨[65], 0⟩]⟩], structs := [], unions := [], exceptions := [], services := [] },
+    { filename := [97], includes := [⟨[98, 46, 116], 0⟩], typedefs := [⟨[85], .name [98, 46, 84]⟩],
+      constants := [⟨[99], .name [85], .ident [98, 46, 84, 46, 65]⟩],
+      enums := [], structs := [], unions := [], exceptions := [], services := [] } ]
+
+/-- The tables regenerated from the working tree (parser.Category numbering, semantic.categoryMap,
+the case lists of ResolveType's switch, the category range tests of ResolveType and Deref) say what
+the IDL specification says. -/
+theorem tables_match_spec :
+    (∀ n, baseCat n = specBase n) ∧
+    (∀ c : Cat, c.isTypeLike = c.isTypeLikeSpec) ∧
+    (∀ c : Cat, c.isDerefTarget = c.isConcrete) ∧
+    Generated.C05.categoryNames = specCategoryNames ∧
+    Cat.all.map Cat.toNat = List.range 18 ∧
+    Generated.C05.containerCase = [kwMap, kwList, kwSet] ∧
+    lookupB kwMap Generated.C05.categoryMap = some Cat.map.toNat ∧
+    lookupB kwList Generated.C05.categoryMap = some Cat.list.toNat ∧
+    lookupB kwSet Generated.C05.categoryMap = some Cat.set.toNat :=
+  ⟨baseCat_eq_specBase, isTypeLike_eq_spec, isDerefTarget_eq_concrete, category_numbering.1,
+   category_numbering.2, container_table.1, container_table.2.1, container_table.2.2.1, container_table.2.2.2⟩
+
+/-- The ResolveTypedefs loop ends within its measure (the number of unresolved entries strictly
+decreases, so `len+1` iterations suffice: the model's fuel never runs out); when it succeeds no
+queued Type node is left with category `typedef` and every written category is one the node's
+chain settles at; it fails with "typedefs can not be resolved" only if some queued node's chain
+never reaches a non-typedef (cyclic or dangling chain). -/
+theorem typedef_fixpoint_complete (le : LoopEnv) (work : List TdEntry) :
+    resolveTypedefs le work ≠ .error .loopDiverged ∧
+    (∀ st, resolveTypedefs le work = .ok st →
+      (∀ e, e ∈ work → ∃ c, st.get e.addr = some c ∧ c ≠ .typedef) ∧
+      (∀ a c, st.get a = some c → ∃ e, e ∈ work ∧ e.addr = a ∧ Settles le work e c)) ∧
+    (resolveTypedefs le work = .error .tdCycle → ∃ e, e ∈ work ∧ ∀ c, ¬ Settles le work e c) := by
+  have h := resolveTypedefs_spec le work
+  refine ⟨?_, ?_, ?_⟩
+  · intro he; rw [he] at h; exact h
+  · intro st hs
+    rw [hs] at h
+    refine ⟨?_, fun a c hg => (h.sound a c hg).2⟩
+    intro e he
+    rcases h.done e he with hm | hm
+    · simp at hm
+    · cases hg : st.get e.addr with
+      | none => rw [hg] at hm; simp at hm
+      | some c => exact ⟨c, rfl, (h.sound _ _ hg).1⟩
+  · intro he; rw [he] at h; exact h
+
+theorem den_cat_ne_typedef {p : Program} {j : Nat} {x : NameOrType} {t : Target} (h : Den p j x t) :
+    t.cat ≠ .typedef := by
+  induction h with
+  | concrete _ _ h3 => exact concrete_ne_typedef h3
+  | typedef _ _ _ ih => exact ih
+  | base h1 => exact (specBase_isBase h1).1
+  | list => simp
+  | set => simp
+  | map => simp
+  | loc _ _ _ ih => exact ih
+  | qual _ _ _ _ _ ih => exact ih
+
+/-- After a successful run, every Type node of every resolved file carries the category of what it
+ultimately denotes (typedef chains followed to the end, across includes; the denotation is unique
+and never `typedef`), is flagged IsTypedef exactly when its written name names a typedef, and has
+Reference = (k, name) exactly when it is written `prefix.name` and `k` is the first include whose
+IDL prefix is `prefix` and whose file defines `name` as a type. -/
+theorem resolve_category {p : Program} {root : Nat} {tbl : Table} (h : resolve p root = .ok tbl)
+    {i : Nat} {f : File} {rf : RFile} (hf : p[i]? = some f) (hr : tbl[i]? = some (some rf))
+    {s : Slot} {te : TypeExpr} (hs : SlotType f s te) :
+    ∃ ns, rf.nodesAt s = some ns ∧ ns.length = te.nodes.length ∧
+      ∀ (k : Nat) sub nd, te.nodes[k]? = some sub → ns[k]? = some nd →
+        (∃ t, Den p i (.ty sub) t ∧ nd.cat = t.cat ∧ ∀ t', Den p i (.ty sub) t' → t' = t) ∧
+        nd.cat ≠ .typedef ∧
+        (nd.isTypedef = true ↔ NamesTypedef p i sub) ∧
+        (∀ k' b, nd.ref = some ⟨k', b⟩ ↔ QualRef p i sub k' b) := by
+  obtain ⟨inv, _⟩ := resolve_inv h
+  obtain ⟨ns, h1, h2, h3⟩ := (inv.good i f rf hf hr).nodes s te hs
+  refine ⟨ns, h1, h2, ?_⟩
+  intro k sub nd hsub hnd
+  obtain ⟨⟨t, hden, hcat⟩, q2, q3⟩ := h3 k sub nd hsub hnd
+  refine ⟨⟨t, hden, hcat, fun t' h' => (den_unique inv hden ⟨rf, hr⟩ t' h').symm⟩, ?_, q2, q3⟩
+  rw [hcat]
+  exact den_cat_ne_typedef hden
+
+/-- the hypotheses of `resolve_category` are satisfiable -/
+example : ∃ tbl, resolve sample 1 = .ok tbl := by
+  have h : (match resolve sample 1 with | .ok _ => true | .error _ => false) = true := by decide
+  cases hr : resolve sample 1 with
+  | ok t => exact ⟨t, rfl⟩
+  | error e => rw [hr] at h; simp at h
+
+end Props.C05
